@@ -16,7 +16,8 @@ type gen struct {
 	pool   []string
 }
 
-var keyPool = []string{"name", "id", "user", "data", "items", "body", "request", "response", "a", "b", "x"}
+var keyPool = []string{"name", "id", "user", "data", "items", "body", "request", "response", "a", "b", "x",
+	"Name", "ID", "User", "NAME", "Id", "A"} // case variants: JSON keys are case-sensitive, an exclusion for .user.id must not keep .user.ID
 var oddKeys = []string{"a.b", "user.name", "x[]", "a[", ".", "", "na me", "ключ", "k\"q", "t\tab", "[]"}
 var strPool = []string{"alice", "bob", "s3cr3t", "", "top", "x y", "é€", "with\"quote", "back\\slash",
 	"line\nbreak", "tab\t", "/slash", "<obfuscated>", "null", "true", "10.00", "日本"}
